@@ -75,6 +75,7 @@ inductive Act where
   | connect (peer : Nat)                      -- `connect()` that registers a resource
   | listen
   | send (id : Nat) (adapter : Status)        -- `adapter`: what the adapter would answer
+  | sendLocal (lid : Nat) (adapter : Status)  -- `send` to an endpoint that names a listener (UDP `send_to`)
   | remove (id : Nat)
   | removeLocal (lid : Nat)
   | isReady (id : Nat)
@@ -128,6 +129,9 @@ def step (s : St) : Act → Option St
         else some (record s "send" id (showStatus .resourceNotAvailable))
       | none => some (record s "send" id (showStatus .resourceNotFound))
     else some (record s "send" id (showStatus .resourceNotFound))
+  | .sendLocal lid adapter =>
+    if s.locals.contains lid then some (record s "sendLocal" lid (showStatus adapter))
+    else some (record s "sendLocal" lid (showStatus .resourceNotFound))
   | .remove id =>
     let (ok, s') := deregister s id .user
     some (record (if ok then { s' with removeTrue := s'.removeTrue ++ [id] } else s') "remove" id (toString ok))
